@@ -20,6 +20,12 @@ Proof.
   change TCP_RESP_BUF_LEN_TOKIO with 65537%N. lia.
 Qed.
 
+(* Source tie of the repaired close (finding C30-1): both providers end a connection after a
+   response-less request through close_after_draining, which [drain_close] models. *)
+Lemma close_after_none_drains :
+  TCP_CLOSE_AFTER_NONE_DRAINS_BLOCKING = 1%N /\ TCP_CLOSE_AFTER_NONE_DRAINS_TOKIO = 1%N.
+Proof. split; reflexivity. Qed.
+
 (* TCP, blocking provider.  For every request list and EVERY way of cutting the concatenated
    framed requests into reads (cuts inside the 2-octet length prefix, several requests in one
    read, reads larger than the free buffer space), followed by any stopping event tl (EOF,
